@@ -1,7 +1,7 @@
 #!/usr/bin/env python3
 """Confirm a seeded change independently and run the checks against it.
 
-usage: seedverify.py <seed-dir> <id> <prop> [<extra prop> ...] [--race] [--needs "..."]
+usage: seedverify.py <seed-dir> <id> <prop> [<extra prop> ...] [--race] [--needs "..."] [--thorough P,Q] [--tags t] [--demo-retries n]
 
 1. fresh scratch worktree of /repo HEAD under /tmp; apply patch.diff;
 2. the existing suite must pass with the patch; the demonstration must FAIL with the patch and
@@ -17,6 +17,15 @@ if race: args.remove("--race")
 needs = ""
 if "--needs" in args:
     i = args.index("--needs"); needs = args[i + 1]; del args[i:i + 2]
+thorough = []
+if "--thorough" in args:
+    i = args.index("--thorough"); thorough = args[i + 1].split(","); del args[i:i + 2]
+tags = ""
+if "--tags" in args:
+    i = args.index("--tags"); tags = "-tags " + args[i + 1] + " "; del args[i:i + 2]
+retries = 1
+if "--demo-retries" in args:
+    i = args.index("--demo-retries"); retries = int(args[i + 1]); del args[i:i + 2]
 demo_name = "demo_test.go"
 if "--demo" in args:
     i = args.index("--demo"); demo_name = args[i + 1]; del args[i:i + 2]
@@ -40,7 +49,7 @@ try:
     tests = re.findall(r"^func (Test\w+)\(", src, re.M)
     runpat = "^(" + "|".join(tests) + ")$"
     dst = os.path.join(wt, pkgdir, "zz_demo_test.go")
-    flags = "-race " if race else ""
+    flags = ("-race " if race else "") + tags
     # without the patch
     shutil.copy(demo, dst)
     r0 = sh("go test -vet=off -count=1 %s-run '%s' ./%s/" % (flags, runpat, pkgdir))
@@ -52,7 +61,10 @@ try:
     rb = sh("go build ./...")
     rs = sh("go test -vet=off -count=1 ./...")
     shutil.copy(demo, dst)
-    r1 = sh("go test -vet=off -count=1 %s-run '%s' ./%s/" % (flags, runpat, pkgdir))
+    for attempt in range(retries):
+        r1 = sh("go test -vet=off -count=1 %s-run '%s' ./%s/" % (flags, runpat, pkgdir))
+        if r1.returncode != 0:
+            break
     os.remove(dst)
     print("demo without patch: rc=%d (want 0) | build with patch rc=%d | existing suite with patch rc=%d (want 0) | demo with patch rc=%d (want !=0)" % (r0.returncode, rb.returncode, rs.returncode, r1.returncode))
     if r0.returncode != 0: print(r0.stdout[-1500:]); ok = False
@@ -65,6 +77,12 @@ if not ok:
 out = subprocess.run([sys.executable, os.path.join(VERIF, "tools", "seedrun.py"), patch] + props, capture_output=True, text=True).stdout
 print(out)
 caught = {p: (("%s: CAUGHT" % p) in out) for p in props}
+tcaught = {}
+if thorough:
+    out2 = subprocess.run([sys.executable, os.path.join(VERIF, "tools", "seedrun.py"), patch] + thorough + ["--tier", "thorough"], capture_output=True, text=True).stdout
+    print(out2)
+    out += "\n[thorough tier]\n" + out2
+    tcaught = {p: (("%s: CAUGHT" % p) in out2) for p in thorough}
 sd = os.path.join(VERIF, "seeded", sid)
 os.makedirs(sd, exist_ok=True)
 shutil.copy(patch, os.path.join(sd, "patch.diff"))
@@ -73,6 +91,6 @@ if os.path.exists(os.path.join(seed, "NOTES.md")):
     shutil.copy(os.path.join(seed, "NOTES.md"), os.path.join(sd, "NOTES.md"))
 meta = {"id": sid, "breaks_property": props[0], "needs_to_manifest": needs, "author": "independent sub-agent given only the property text",
         "confirmed": {"existing_suite_passes_with_patch": True, "demo_fails_with_patch": True, "demo_passes_without_patch": True, "commands": ran},
-        "checks_run": {p: ("caught" if c else "missed") for p, c in caught.items()}, "check_output": out.strip().splitlines(), "date": time.strftime("%Y-%m-%d")}
+        "checks_run": {p: ("caught" if c else ("caught (thorough tier only)" if tcaught.get(p) else "missed")) for p, c in caught.items()}, "check_output": out.strip().splitlines(), "date": time.strftime("%Y-%m-%d")}
 json.dump(meta, open(os.path.join(sd, "meta.json"), "w"), indent=1)
 print("stored", sd, meta["checks_run"])
